@@ -384,6 +384,25 @@ def gen_case(rng, max_deltas=6, cover=True):
                 objs.append(NonSymmetricTensor("z", (twin,)))
                 if rng.random() < 0.7:
                     carried = [c for c in carried if c is not x]
+    protect = []
+    if rng.random() < 0.15:
+        # collision family: delta_{i p_sigma} (spin-less occ/virt index, spin
+        # labelled general index; no preferred index, left in place), both
+        # contracted and on other tensors, and a contracted index with the
+        # name of i and the spin sigma elsewhere in the product
+        sigma = rng.choice("ab")
+        i = pool.fresh((rng.choice(["occ", "virt"]), ""))
+        if (i.name, sigma) not in pool.used:
+            pool.used.add((i.name, sigma))
+            twin = get_symbols(i.name, sigma)[0]
+            pg = pool.fresh(("general", sigma))
+            objs.append(KroneckerDelta(i, pg))
+            objs.append(NonSymmetricTensor("f", (i, extra_pool())))
+            objs.append(NonSymmetricTensor("g", (pg,)))
+            objs.append(NonSymmetricTensor("h", (twin,)))
+            objs.append(NonSymmetricTensor("k", (twin,) if rng.random() < 0.6
+                                           else (twin, extra_pool())))
+            protect = [i, pg, twin]
     rng.shuffle(carried)
     while carried:
         k = rng.randint(1, min(3, len(carried)))
@@ -406,6 +425,8 @@ def gen_case(rng, max_deltas=6, cover=True):
         tg = None
     else:
         tg = [x for x in allidx if rng.random() < 0.35]
+        if protect and rng.random() < 0.7:
+            tg = [x for x in tg if x not in protect]
     if cover and expr != 0:
         ctx = HashCtx(allidx)
         st = conv_args(expr, ctx)
